@@ -277,7 +277,8 @@ class C08(Check):
         return lower, upper, overridden[0]
 
     # ------------------------------------------------------------------------------------------
-    def evaluate(self, ir, objs, times=2):
+    def build(self, ir, objs):
+        """returns (rule query, decode(instance) -> (branch index, argument labels))"""
         from krrood.entity_query_language.conclusion import Add
         from krrood.entity_query_language.entity import entity, inference
         from krrood.entity_query_language.quantify_entity import an
@@ -304,16 +305,20 @@ class C08(Check):
 
         with query:
             emit(ir["tree"])
+
+        def decode(inst):
+            i = next((k for k, cls in enumerate(K) if type(inst) is cls), None)
+            if i is None:
+                return ("?", repr(inst))
+            return (i, tuple(getattr(inst, f"v{j}")._label for j in blocks[i]["args"]))
+
+        return query, decode
+
+    def evaluate(self, ir, objs, times=2):
+        query, decode = self.build(ir, objs)
         runs = []
         for _ in range(times):
-            got = set()
-            for inst in query.evaluate():
-                i = next((k for k, cls in enumerate(K) if type(inst) is cls), None)
-                if i is None:
-                    got.add(("?", repr(inst)))
-                    continue
-                got.add((i, tuple(getattr(inst, f"v{j}")._label for j in blocks[i]["args"])))
-            runs.append(got)
+            runs.append({decode(inst) for inst in query.evaluate()})
         return runs
 
     def run(self, ir) -> Outcome:
